@@ -24,6 +24,7 @@ def corpus(tier, seed):
                  kills=[500, 200, 200]),
         ins_spec("gauss4", s + 8, 80, n_initial=120, draw_constant=True, strict_threshold=True,
                  draw_iid_live=False),
+        ins_spec("trunc2", s + 9, 100, max_iteration=4, kills=[350]),
     ]
     if tier == "thorough":
         k = 9
